@@ -9,6 +9,10 @@
 import IcontractModel.Expr
 namespace Icontract.Ex
 
+/-- Python's scoping of the names of a lambda condition: parameters (locals), then the closure cells, then the
+module globals (the builtins come last, see `Env`) - given as look-ups in this order -/
+def pyScope (ls : List (List (String × Val))) : List (String × Val) := ls.flatten
+
 mutual
 def pyEval (ops : Ops) (env : Env) : Expr → Except Exc (Val × Log)
   | .const i v => .ok (v, [(i, v)])
